@@ -327,6 +327,9 @@ func isTarget(ns []*Rec, name string) bool {
 // describe renders the expectation for messages.
 func describe(e *Expect, qname string) string {
 	var sb strings.Builder
+	if e.Skip {
+		sb.WriteString("not compared (DS exactly at a delegation point is answered from the parent side); by the general rule: ")
+	}
 	fmt.Fprintf(&sb, "%s (client location %q", exName[e.Class], e.Loc)
 	if e.Zone != "" {
 		fmt.Fprintf(&sb, ", zone cut %s", e.Zone)
